@@ -270,11 +270,11 @@ theorem unflagged_event_ok (d : Disk) (h : DiskOk d) (c : CompDir) (hc : c ∈ d
       rw [hcomps, hfold d.comps _ (fun x hx => hx)]
       rfl
 
-/-- with the single flagged directory `c`: an unlink or rmdir on one of its inputs / its replacement path -/
-theorem input_event_ok (d : Disk) (h : DiskOk d) (c : CompDir) (m : CompMeta) (hc : d.comps = [c])
-    (hf : c.flag = some m) (g : Nat) (hg : g ∈ m.inputs ∨ g = m.replacement)
-    (e : Ev) (he : (∃ keep, e = .tblUnlinkPart g keep) ∨ e = .tblRmdir g) :
-    DiskOk (applyEv d e) ∧ norm (applyEv d e) = norm d := by
+/-- with the single flagged directory `c`: whatever happens to the directory of one of its inputs / its replacement
+path (short of removing it) changes nothing -/
+theorem input_upd_ok (d : Disk) (h : DiskOk d) (c : CompDir) (m : CompMeta) (hc : d.comps = [c])
+    (hf : c.flag = some m) (g : Nat) (hg : g ∈ m.inputs ∨ g = m.replacement) (f : TableDir → TableDir) :
+    DiskOk { d with tables := updT g f d.tables } ∧ norm { d with tables := updT g f d.tables } = norm d := by
   have hq : (fun n : Nat => !(m.inputs.contains n || n == m.replacement)) g = false := by
     rcases hg with (hg | hg)
     · simp [hg]
@@ -282,30 +282,40 @@ theorem input_event_ok (d : Disk) (h : DiskOk d) (c : CompDir) (m : CompMeta) (h
   have hcovg : coveredBy d.comps g = true := by
     apply (coveredBy_iff _ _).2
     exact ⟨c, by rw [hc]; exact List.mem_singleton.2 rfl, m, hf, hg⟩
-  rcases he with (⟨keep, rfl⟩ | rfl)
-  · have htab : (applyEv d (.tblUnlinkPart g keep)).tables = updT g (TableDir.unlink keep) d.tables := rfl
-    refine ⟨?_, ?_⟩
-    · refine { h with tblSorted := ?_, covered := ?_ }
-      · rw [htab, keys_updT]; exact h.tblSorted
-      · intro p hp hpm
-        rw [htab] at hp
-        obtain ⟨q, hq', rfl⟩ := List.mem_map.1 hp
-        by_cases hid : q.1 = g
-        · have : (q.1 == g) = true := by simpa using hid
-          simp only [this, if_true]
-          show coveredBy d.comps q.1 = true
-          rw [hid]; exact hcovg
-        · have : (q.1 == g) = false := by simpa using hid
-          simp only [this] at hpm ⊢
-          exact h.covered q hq' hpm
-    · refine norm_congr ?_ rfl rfl
-      unfold normT
-      rw [htab]
-      show ((d.comps).foldl finishComp _).filter _ = _
-      rw [hc]
-      simp only [List.foldl_cons, List.foldl_nil, finishComp, hf]
-      unfold rmInputs
-      rw [filter_updT (fun n => !(m.inputs.contains n || n == m.replacement)) g _ _ hq]
+  refine ⟨?_, ?_⟩
+  · refine { h with tblSorted := ?_, covered := ?_ }
+    · show ((updT g f d.tables).map (·.1)).Pairwise (· < ·)
+      rw [keys_updT]; exact h.tblSorted
+    · intro p hp hpm
+      have hp : p ∈ updT g f d.tables := hp
+      obtain ⟨q, hq', rfl⟩ := List.mem_map.1 hp
+      by_cases hid : q.1 = g
+      · have : (q.1 == g) = true := by simpa using hid
+        simp only [this, if_true]
+        show coveredBy d.comps q.1 = true
+        rw [hid]; exact hcovg
+      · have : (q.1 == g) = false := by simpa using hid
+        simp only [this] at hpm ⊢
+        exact h.covered q hq' hpm
+  · refine norm_congr ?_ rfl rfl
+    unfold normT
+    show ((d.comps).foldl finishComp (updT g f d.tables)).filter _ = _
+    rw [hc]
+    simp only [List.foldl_cons, List.foldl_nil, finishComp, hf]
+    unfold rmInputs
+    rw [filter_updT (fun n => !(m.inputs.contains n || n == m.replacement)) g _ _ hq]
+
+/-- with the single flagged directory `c`: an unlink or rmdir on one of its inputs / its replacement path -/
+theorem input_event_ok (d : Disk) (h : DiskOk d) (c : CompDir) (m : CompMeta) (hc : d.comps = [c])
+    (hf : c.flag = some m) (g : Nat) (hg : g ∈ m.inputs ∨ g = m.replacement)
+    (e : Ev) (he : (∃ keep, e = .tblUnlinkPart g keep) ∨ e = .tblRmdir g ∨ (∃ j, e = .tblLoadable g j)) :
+    DiskOk (applyEv d e) ∧ norm (applyEv d e) = norm d := by
+  have hq : (fun n : Nat => !(m.inputs.contains n || n == m.replacement)) g = false := by
+    rcases hg with (hg | hg)
+    · simp [hg]
+    · simp [hg]
+  rcases he with (⟨keep, rfl⟩ | rfl | ⟨j, rfl⟩)
+  · exact input_upd_ok d h c m hc hf g hg (TableDir.unlink keep)
   · have htab : (applyEv d (.tblRmdir g)).tables = eraseT g d.tables := rfl
     refine ⟨?_, ?_⟩
     · refine { h with tblSorted := ?_, covered := ?_ }
@@ -321,6 +331,7 @@ theorem input_event_ok (d : Disk) (h : DiskOk d) (c : CompDir) (m : CompMeta) (h
       simp only [List.foldl_cons, List.foldl_nil, finishComp, hf]
       unfold rmInputs
       rw [filter_eraseT (fun n => !(m.inputs.contains n || n == m.replacement)) g _ hq]
+  · exact input_upd_ok d h c m hc hf g hg (fun _ => TableDir.complete j)
 
 /-- the rename that finishes the single flagged directory, once inputs and replacement path are gone -/
 theorem rename_event_ok (d : Disk) (h : DiskOk d) (c : CompDir) (m : CompMeta) (hc : d.comps = [c])
@@ -423,7 +434,8 @@ theorem nextInput_none {m : CompMeta} {ts : List (Nat × TableDir)} (h : nextInp
   rw [if_pos hne, Option.map_eq_none_iff] at this
   exact lookupT_none.1 this p hp rfl
 
-theorem rmTblEv_cases (g : Nat) (t : TableDir) : (∃ keep, rmTblEv g t = .tblUnlinkPart g keep) ∨ rmTblEv g t = .tblRmdir g := by
+theorem rmTblEv_cases (g : Nat) (t : TableDir) :
+    (∃ keep, rmTblEv g t = .tblUnlinkPart g keep) ∨ rmTblEv g t = .tblRmdir g ∨ (∃ j, rmTblEv g t = .tblLoadable g j) := by
   cases t with
   | part b => cases b <;> simp [rmTblEv]
   | complete c => simp [rmTblEv]
@@ -801,5 +813,82 @@ theorem cleanEvents_full (d : Disk) (h : DiskOk d) : applyEvs d (cleanEvents d) 
 theorem cleanEvents_prefix (d : Disk) (h : DiskOk d) (n : Nat) :
     DiskOk (applyEvs d ((cleanEvents d).take n)) ∧ norm (applyEvs d ((cleanEvents d).take n)) = norm d :=
   cleanRun_prefix _ d h n
+
+/-! ## `RemoveAll` orders that unlink the metadata first (`detour`) -/
+
+/-- which call the clean-up loop makes, and in which situation -/
+theorem cleanStep_ctx (d : Disk) (h : DiskOk d) (e : Ev) (he : cleanStep d = some e) :
+    (∃ c, c ∈ d.comps ∧ (e = .compUnlinkPart c.id ∨ e = .compRmdir c.id)) ∨
+    (∃ c m, d.comps = [c] ∧ c.flag = some m ∧
+      ((∃ g t, (g ∈ m.inputs ∨ g = m.replacement) ∧ (g, t) ∈ d.tables ∧ e = rmTblEv g t) ∨
+        e = .compRename c.id m.replacement)) ∨
+    (d.comps = [] ∧ ∃ g, (g, TableDir.part false) ∈ d.tables ∧ e = .tblRmdir g) := by
+  unfold cleanStep at he
+  split at he
+  · rename_i c hfind
+    have hc := List.mem_of_find?_eq_some hfind
+    left
+    split at he <;> cases he
+    · exact ⟨c, hc, Or.inr rfl⟩
+    · exact ⟨c, hc, Or.inl rfl⟩
+  · rename_i hall
+    split at he
+    · rename_i c rest hcs
+      obtain ⟨hrest, m, hm⟩ := comps_all_flagged h hall c rest hcs
+      subst hrest
+      right; left
+      split at he
+      · rename_i hn; rw [hm] at hn; cases hn
+      · rename_i m' hm'
+        rw [hm] at hm'; cases hm'
+        refine ⟨c, m, hcs, hm, ?_⟩
+        split at he
+        · rename_i g t hni
+          cases he
+          have := nextInput_some hni
+          exact Or.inl ⟨g, t, Or.inl this.1, this.2, rfl⟩
+        · split at he
+          · rename_i t hl
+            cases he
+            exact Or.inl ⟨_, t, Or.inr rfl, lookupT_some hl, rfl⟩
+          · cases he
+            exact Or.inr rfl
+    · rename_i hcs
+      right; right
+      split at he
+      · rename_i g hfind
+        cases he
+        exact ⟨hcs, g, List.mem_of_find?_eq_some hfind, rfl⟩
+      · cases he
+
+theorem updT_updT (g : Nat) (f1 f2 : TableDir → TableDir) (ts : List (Nat × TableDir)) :
+    updT g f2 (updT g f1 ts) = updT g (f2 ∘ f1) ts := by
+  unfold updT
+  rw [List.map_map]
+  apply List.map_congr_left
+  intro p _
+  by_cases hp : p.1 = g <;> simp [hp]
+
+theorem updT_congr (g : Nat) (f f' : TableDir → TableDir) (ts : List (Nat × TableDir))
+    (h : ∀ p ∈ ts, p.1 = g → f p.2 = f' p.2) : updT g f ts = updT g f' ts := by
+  unfold updT
+  apply List.map_congr_left
+  intro p hp
+  by_cases hg : p.1 = g
+  · simp [hg, h p hp hg]
+  · simp [hg]
+
+theorem eraseT_updT' (g : Nat) (f : TableDir → TableDir) (ts : List (Nat × TableDir)) :
+    eraseT g (updT g f ts) = eraseT g ts :=
+  filter_updT (fun n => n != g) g f ts (by simp)
+
+/-- entries with the same name are the same entry -/
+theorem entry_unique {ts : List (Nat × TableDir)} (hs : (ts.map (·.1)).Pairwise (· < ·)) {g : Nat} {t : TableDir}
+    (hm : (g, t) ∈ ts) : ∀ p ∈ ts, p.1 = g → p.2 = t := by
+  intro p hp hpg
+  have h1 := lookupT_of_mem hs hm
+  have h2 : lookupT g ts = some p.2 := lookupT_of_mem hs (by rw [← hpg]; exact hp)
+  rw [h1] at h2
+  exact (Option.some.inj h2).symm
 
 end SST.Proofs.FS
